@@ -10,6 +10,9 @@ outstanding.  Model line: `run <retries> <script>` -> `<iterations> <events>`.
 """
 import asyncio
 import itertools
+import logging
+
+_NULL = logging.NullHandler()
 
 RULE = ("exhaustive scripts over {o,f,s,c} up to a tier-dependent length x retries 0..3, run on the real "
         "heartbeater and on the Lean model; non-trivial = script reaches a terminating event (failure or "
@@ -102,11 +105,24 @@ async def _drive(task, sc):
     await asyncio.sleep(0)
 
 
-async def run_plain(protocol_mod, retries, sc):
+class HandlerError(Exception):
+    """what a faulty user handler raises out of connection_lost"""
+
+
+async def run_plain(protocol_mod, retries, sc, raising=False):
+    def failure(exc):
+        sc.record("failure")
+        if raising:
+            # the report ends up in user code (DeviceListener.connection_lost), which may
+            # itself fail: the loss must still be declared once and the keep-alives stop
+            raise HandlerError("listener failed")
+
     task = asyncio.ensure_future(protocol_mod.heartbeater(
         "verif", sc.sender, finish_func=lambda: sc.record("finish"),
-        failure_func=lambda exc: sc.record("failure"), retries=retries, interval=30))
+        failure_func=failure, retries=retries, interval=30))
     await _drive(task, sc)
+    if task.done() and not task.cancelled():
+        task.exception()   # retrieved: a raising handler ends the task with its exception
     return sc
 
 
@@ -135,7 +151,7 @@ async def run_mrp(protocol_mod, sc):
     return sc
 
 
-async def run_ap2(protocol_mod, sc, late=False, holder=None):
+async def run_ap2(protocol_mod, sc, late=False, holder=None, raising=False, facade=False):
     """AP2Session.start_keep_alive: failure -> connection_lost, cancel -> connection_closed."""
     from pyatv.protocols.airplay import ap2_session
     from pyatv.support.state_producer import StateProducer
@@ -143,6 +159,8 @@ async def run_ap2(protocol_mod, sc, late=False, holder=None):
     class Listener:
         def connection_lost(self, exc):
             sc.record("failure")
+            if raising:
+                raise HandlerError("listener failed")
 
         def connection_closed(self):
             sc.record("finish")
@@ -152,6 +170,19 @@ async def run_ap2(protocol_mod, sc, late=False, holder=None):
             await sc.sender()
 
     producer = StateProducer()
+    if facade:
+        # the device listener pyatv.connect() really passes: FacadeAppleTV, a producer that
+        # relays ONE call (max_calls=1) and closes everything when its state is updated
+        class Facade(StateProducer):
+            def __init__(self):
+                super().__init__(max_calls=1)
+                self.sess = None
+
+            def state_was_updated(self):
+                if self.sess is not None:
+                    self.sess.stop()
+
+        producer = Facade()
     lst = Listener()
     if late:
         # the normal flow: atv = await connect(...) starts the keep-alive, the user
@@ -175,9 +206,14 @@ async def run_ap2(protocol_mod, sc, late=False, holder=None):
             holder["sess"] = sess
     sess.rtsp = Rtsp()
     sess.start_keep_alive(producer)
+    if facade:
+        producer.sess = sess
     if late:
         producer.listener = lst
-    await _drive(sess._feedback_task, sc)
+    task = sess._feedback_task
+    await _drive(task, sc)
+    if task.done() and not task.cancelled():
+        task.exception()
     return sc
 
 
@@ -356,15 +392,39 @@ def execute(protocol_mod, cases):
                 results.append((variant, r, s, [scs[0].events, scs[1].events], [scs[0].i, scs[1].i]))
                 continue
             sc = Script(s)
-            if variant == "plain":
+            debug = variant.endswith("debug")
+            if debug:
+                # a run-time parameter of the process: the user has switched on debug logging
+                # (records go to a null handler; nothing is printed)
+                prev_disable = logging.root.manager.disable
+                logging.disable(logging.NOTSET)
+                plog = logging.getLogger("pyatv")
+                prev = (plog.level, plog.propagate)
+                plog.setLevel(logging.DEBUG)
+                plog.propagate = False
+                plog.addHandler(_NULL)
+            if variant in ("plain", "plaindebug"):
                 coro = as_task(run_plain, sc, protocol_mod, r, sc)
-            elif variant == "mrp":
+            elif variant == "plainraise":
+                coro = as_task(lambda pm, rr, x: run_plain(pm, rr, x, raising=True), sc, protocol_mod, r, sc)
+            elif variant == "ap2raise":
+                coro = as_task(lambda pm, x: run_ap2(pm, x, raising=True), sc, protocol_mod, sc)
+            elif variant == "ap2facade":
+                coro = as_task(lambda pm, x: run_ap2(pm, x, facade=True), sc, protocol_mod, sc)
+            elif variant in ("mrp", "mrpdebug"):
                 coro = as_task(run_mrp, sc, protocol_mod, sc)
             elif variant == "ap2late":
                 coro = as_task(lambda pm, x: run_ap2(pm, x, late=True), sc, protocol_mod, sc)
             else:
                 coro = as_task(run_ap2, sc, protocol_mod, sc)
-            loop.run_until_complete(orig_ensure(coro))
+            try:
+                loop.run_until_complete(orig_ensure(coro))
+            finally:
+                if debug:
+                    plog.removeHandler(_NULL)
+                    plog.setLevel(prev[0])
+                    plog.propagate = prev[1]
+                    logging.disable(prev_disable)
             results.append((variant, r, s, sc.events, sc.i))
     finally:
         asyncio.ensure_future = orig_ensure
@@ -416,6 +476,17 @@ def run(ctx, only=None):
         if "o" in s:
             cases.append(("ap2", default_r, s.replace("o", "O")))
             cases.append(("mrp", default_r, s.replace("o", "O", 1)))
+    # the consumer of the report and the process environment: a handler that raises, the
+    # facade-like device listener (relays one call, then closes), debug logging switched on
+    env_len = ctx.scale(5, 6)
+    for s in scripts(env_len):
+        for r in (0, 1, 2):
+            cases.append(("plainraise", r, s))
+        cases.append(("plaindebug", default_r, s))
+        cases.append(("ap2raise", default_r, s))
+        cases.append(("ap2facade", default_r, s))
+        cases.append(("ap2debug", default_r, s))
+        cases.append(("mrpdebug", default_r, s))
     # two loops alive at once with the same name; the same AP2Session used twice
     pair_pool = [s for s in scripts(4)]
     rng = ctx.rng.fork("pairs")
@@ -483,14 +554,14 @@ def run(ctx, only=None):
         ctx.note("end:" + (events[-1] if events and events[-1] in ("failure", "finish") else "running"))
         model_iter, model_events = ans.split(" ")
         model_events = [] if model_events == "-" else model_events.split(",")
-        if variant == "mrp":
+        if variant in ("mrp", "mrpdebug"):
             model_events = [e for e in model_events if e != "finish"]  # MRP has no finish callback
         impl = f"{consumed} {','.join(events) or '-'}"
         case = {"variant": base, "retries": r, "script": whole if base in ("pair", "ap2x2") else s}
         if model_events != events or int(model_iter) != consumed:
             ctx.disagree(dict(case, loop=variant, own_script=s), impl, ans, where="heartbeater events")
         ctx.validated()
-        for what in oracle(r, s.replace("O", "o"), events, "mrp" if variant == "mrp" else "plain"):
+        for what in oracle(r, s.replace("O", "o"), events, "mrp" if variant in ("mrp", "mrpdebug") else "plain"):
             ctx.fail(f"{base}:{what.split(' ')[0]}", dict(case, loop=variant, own_script=s),
                      events, "see property C19", what)
 
